@@ -69,6 +69,9 @@ class P(vlib.Prop):
             "of the key; value = the compression type, '', another codec, unknown names), 8% an unrelated header, 7% store a "
             "Content-Encoding value under the non-canonical key content-encoding on the caller's request (the direct path "
             "canonicalises keys the way the wire does; the TCP path validates that). "
+            "Server `middlewares:` 35% of the full-bytes cases configure one or two ServerConfig.Middlewares handlers that look at "
+            "header, declared length and the whole body and put it back; every handler behind the decompressor is recorded in "
+            "the order it ran and compared with the model's server_views. "
             "Replay: in EVERY case a tap below the package's round trippers records GetBody of the outgoing request before and "
             "after the send (what a transport-level replay would send; compared with the model's w_rewind); ~45% of the "
             "rewindable requests run over TCP with a fault: warm-up on a keep-alive connection, then the server receives the "
@@ -151,7 +154,7 @@ class P(vlib.Prop):
                                          "defines": [n for _, n, _, _ in TABLES], "params": None})
 
     CLAUSE = {1: "roundtrip", 2: "passthrough", 3: "unsupported-not-rejected", 4: "limit-exceeded",
-              5: "decoded-stream", 6: "body-touched", 7: "server-panic"}
+              5: "decoded-stream", 6: "body-touched", 7: "server-panic", 8: "every-handler-view"}
 
     def extra_checks(self, ctx):
         """Failing-input search, part 1: every case on which check_all failed is diagnosed in Coq: does the model
